@@ -15,6 +15,14 @@ MODULES = {
     "iroh_base__key": ("iroh-base", "key::verif_kani"),
     "iroh_base__endpoint_addr": ("iroh-base", "endpoint_addr::verif_kani"),
     "iroh_relay__relay": ("iroh-relay", "protos::relay::verif_kani"),
+    "iroh_relay__ping_tracker": ("iroh-relay", "ping_tracker::verif_kani"),
+    "iroh_relay__http": ("iroh-relay", "http::verif_kani"),
+    "iroh_relay__streams": ("iroh-relay", "server::streams::verif_kani"),
+    "iroh_relay__client": ("iroh-relay", "server::client::verif_kani"),
+    "iroh_dns__pkarr": ("iroh-dns", "pkarr::verif_kani"),
+    "iroh__mapped_addrs": ("iroh", "socket::mapped_addrs::verif_kani"),
+    "iroh__ip": ("iroh", "socket::transports::ip::verif_kani"),
+    "iroh__endpoint": ("iroh", "endpoint::verif_kani"),
 }
 
 COMMON_STUBS = ["n0_error::backtrace_enabled -> false"]
@@ -134,5 +142,116 @@ PROPS["C16"] = {
         H(_R, "c16_take_segments_step_any_n", "one take partitions exactly: taken||rest == original, <= n segments, whole segments, ECN kept, segment_size Some iff > 1 datagram (both parts)", "len 0..=24, ss None|1..=65535, n 1..=usize::MAX"),
         H(_R, "c16_take_segments_repeated", "three successive takes reassemble the original", "len 0..=12, n1,n2 in 1..=4"),
         W(_R, "c16_witness"),
+    ],
+}
+
+SIG_ORACLE = "iroh_base::PublicKey::verify -> signature oracle (uninterpreted Ed25519: nondeterministic verdict, records key/message/signature)"
+DNS_ORACLE = "simple_dns::Packet::parse -> 'payload parses?' oracle (the DNS parser is not the subject)"
+_P = "iroh_dns__pkarr"
+PROPS["C32"] = {
+    "functions": ["iroh_dns::pkarr::SignedPacket::{from_bytes,from_relay_payload,from_bytes_unchecked,from_parts_unchecked,public_key,signature,timestamp,encoded_packet,as_bytes,to_relay_payload}",
+                  "iroh_dns::pkarr::signable (real format!)"],
+    "bounds": "packets of 104+P bytes, P in {0,2,4} (every byte symbolic), timestamps < 1000 where the BEP44 text is compared digit by digit; size limits at 0,1,96,103 and 1105 bytes",
+    "out": "real Ed25519 / curve arithmetic and the real DNS parser (oracles), txt_records / all_txt_records / Display (simple-dns name handling), from_txt_strings (needs a SecretKey), payloads > 4 bytes, timestamps >= 1000",
+    "stubs": [KEY_ORACLE, KEY_ALLVALID, SIG_ORACLE, DNS_ORACLE, BT],
+    "assumptions": ["signature verification and DNS parsing are uninterpreted oracles: decided is *what* iroh asks them (which key, which message bytes, which signature) and that acceptance requires all of them"],
+    "harnesses": [
+        H(_P, "c32_signable_is_bep44", "signable(ts, v) == 3:seqi<ts>e1:v<len>:<v>", "ts < 1000, 3-byte payload", timeout=600),
+        H(_P, "c32_from_bytes_authentic_p4", "from_bytes Ok iff key valid & signature by embedded key over signable(ts,payload) verifies & payload parses; bytes preserved; accessors agree", "108-byte packets, ts < 1000", timeout=900, stub_env=True, stubs=["decompress", "verify", "Packet::parse"]),
+        H(_P, "c32_from_bytes_authentic_p0", "same with empty payload", "104-byte packets, ts < 1000", timeout=900, stub_env=True, stubs=["decompress", "verify", "Packet::parse"]),
+        H(_P, "c32_from_relay_payload_uses_given_key", "from_relay_payload(K,x) verifies under K and embeds K", "74-byte payloads", timeout=900, stub_env=True, stubs=["verify", "Packet::parse"]),
+        H(_P, "c32_size_limits", "too short / too long inputs rejected before any oracle is consulted", "lengths 0,1,96,103,1105"),
+        H(_P, "c32_unchecked_is_safe_to_inspect", "values from from_bytes_unchecked / from_parts_unchecked can be inspected without panic", "106-byte inputs, all bytes symbolic", timeout=600, stub_env=True, stubs=["decompress", "Packet::parse"]),
+        W(_P, "c32_witness", timeout=600),
+    ],
+}
+PROPS["C33"] = {
+    "functions": ["iroh_dns::pkarr::Timestamp::now"],
+    "bounds": "one call under <= 3 environment interferences (other threads raising the cell, spurious CAS failures); two sequential calls; clock readings < 2^62 us, cell < 2^64-16",
+    "out": "real hardware atomics / memory orderings (the cell is modelled sequentially consistent; Relaxed CAS on a single location is coherent), u64 wrap at 2^64",
+    "stubs": ["std::time::SystemTime::now -> arbitrary reading (may go backwards)", "portable_atomic::AtomicU64::compare_exchange_weak -> environment step (cell raised to an arbitrary larger value / spurious failure) then the real comparison"],
+    "assumptions": ["rely: other threads modify LAST_TIMESTAMP only by running Timestamp::now, i.e. only raise it to values they return"],
+    "harnesses": [
+        H(_P, "c33_now_exceeds_cell_under_interference", "returned value > cell value immediately before the successful CAS; cell == returned value afterwards (guarantee => strict global monotonicity by induction)", "<= 3 interferences per call", timeout=600, stub_env=True, stubs=["SystemTime::now", "compare_exchange_weak"]),
+        H(_P, "c33_sequential_calls_strictly_increase", "two sequential calls strictly increase for arbitrary clocks", "all clock readings < 2^62", timeout=600, stub_env=True, stubs=["SystemTime::now"]),
+        W(_P, "c33_witness", timeout=600),
+    ],
+}
+PROPS["C37"] = {
+    "functions": ["iroh_dns::pkarr::SignedPacket::{more_recent_than,timestamp,encoded_packet}"],
+    "bounds": "three packets with all 104 header bytes and 3 payload bytes symbolic; payload lengths 2 vs 3 for the prefix rule",
+    "out": "the store actor, redb tables, the update report of ZoneStore::insert (tokio + redb: not encodable); payloads > 3 bytes",
+    "stubs": [],
+    "assumptions": ["kernel only: the store keeps a packet unless existing.more_recent_than(new) (store/signed_packets.rs, by reading); a strict total order makes that converge to the maximum for every arrival order"],
+    "harnesses": [
+        H(_P, "c37_more_recent_than_strict_total_order", "irreflexive, asymmetric, transitive, total on distinct (timestamp,payload); agrees with lexicographic order", "3 packets, 3-byte payloads", timeout=600),
+        H(_P, "c37_more_recent_than_prefix_payloads", "payloads of different length at equal timestamps are strictly ordered (prefix is older)", "payload lengths 2 and 3", timeout=600),
+        W(_P, "c37_witness", timeout=600),
+    ],
+}
+
+TRACING = "tracing::__macro_support::__is_enabled -> false, DefaultCallsite::interest -> never, Event::dispatch -> no-op (tracing's thread-local dispatcher makes kani-compiler ICE)"
+CLOCK = "tokio::time::Instant::now -> BASE + NOW_MS (symbolic, harness-controlled, non-decreasing)"
+RNG = "rand::random::<T> -> arbitrary T"
+_S = "iroh_relay__streams"
+_CL = "iroh_relay__client"
+PROPS["C05"] = {
+    "functions": ["iroh_relay::protos::relay::Datagrams::is_forwardable", "iroh_relay::server::client::Client::try_send_packet (real tokio mpsc try_send)",
+                  "iroh_relay::server::streams::RelayedStream::<MockSink>::start_send", "RelayToClientMsg::{encoded_len,to_bytes}"],
+    "bounds": "every payload length 0..=65544 (symbolic) for single datagrams and batches",
+    "out": "the client actor loop (tokio select!, mpsc receive: thread-local with destructor, not compilable by Kani 0.68): that a sink error ends only the "
+           "receiving actor is by reading server/client.rs run_inner; queue-full / closed-queue paths; Ping/Pong frames (answered on the sender's own connection)",
+    "stubs": [KEY_ALLVALID, BT, TRACING, "RelayToClientMsg::to_bytes -> empty buffer in the symbolic-length harnesses (allocation by symbolic length; the encoder is C10's subject)"],
+    "assumptions": ["a packet can only reach another client's connection through Clients::send_packet -> Client::try_send_packet (by reading: the only producer of the packet queue)"],
+    "harnesses": [
+        H(_S, "c05_forwardable_iff_sink_accepts_single", "is_forwardable(d) <=> the receiver's sink-side checks accept the re-framed message (non-empty, <= MAX_PACKET_SIZE)", "payload length 0..=65544 symbolic, single datagram"),
+        H(_S, "c05_forwardable_iff_sink_accepts_batch", "same for batches (2 more header bytes)", "payload length 0..=65544 symbolic, batch"),
+        H(_CL, "c05_only_forwardable_enters_queue", "Client::try_send_packet queues a datagram batch for the destination's actor iff the destination's sink accepts its frame; everything else is dropped with Ok and the queue is untouched", "payload length 0..=65544 symbolic, single and batch; partially initialised Client (packet queue only)", timeout=600),
+        W(_S, "c05_witness"),
+    ],
+}
+PROPS["C09"] = {
+    "functions": ["iroh_relay::server::streams::Bucket::{new,from_config,update_state,consume}"],
+    "bounds": "relay path (refill period 100 ms): from_config over all NonZeroU32 rates and optional bursts; one consume step from an arbitrary reachable state with "
+              "refill,max,n,elapsed <= 2^8 (quick) / 2^12 (thorough) and fill >= -4*2^k; panic-freedom over full u32-derived ranges, any usize byte count, clock up to 2^41 ms",
+    "out": "RateLimited::poll_read (creates a tokio Sleep: thread-local, not compilable): that it sleeps until the returned deadline and consults the bucket after every read is by "
+           "reading streams.rs:565-620; the watch channel; Bucket::new with embedder-chosen refill periods or i64-range rates",
+    "stubs": [CLOCK, BT],
+    "assumptions": ["one inductive step from every state satisfying fill <= max, refill >= 1 covers histories of any length"],
+    "harnesses": [
+        H(_S, "c09_from_config_total_and_full_16bit", "from_config: never panics, full bucket, burst default rate/10, refill = rate/10, rejects only rate<10 or zero burst", "rates <= 2^16, all optional bursts", timeout=600),
+        H(_S, "c09_from_config_total_and_full_32bit", "same", "all NonZeroU32 rates", tier="thorough", timeout=3000),
+        H(_S, "c09_consume_step_8bit", "one consume step from any reachable state: no refill before a full period, refill = whole elapsed periods x refill capped at max, admit iff tokens remain, deadline >= one period after the refill clock, refill clock within one period of now", "8-bit ranges", timeout=900),
+        H(_S, "c09_consume_step_12bit", "same", "12-bit ranges", tier="thorough", timeout=3000),
+        H(_S, "c09_throttle_deadline_exact_6bit", "throttle deadline = first period boundary with positive fill (resume no later, not earlier)", "6-bit ranges", timeout=900),
+        H(_S, "c09_consume_never_panics", "no byte count / elapsed time / reachable state makes consume panic or leave fill > max", "rate up to u32::MAX, n any usize, clock < 2^41 ms", timeout=600),
+        W(_S, "c09_witness"),
+    ],
+}
+PROPS["C11"] = {
+    "functions": ["iroh_relay::http::ProtocolVersion::{match_from_str,to_str,to_header_value,ALL}", "derived Ord/Default"],
+    "bounds": "all ASCII strings of length 0..=16",
+    "out": "MOST of the property: the split(',').map(trim).filter_map(match_from_str).max() pipeline is written inline in handle_relay_ws_upgrade(Request<Incoming>) "
+           "(no constructor for hyper::body::Incoming, spawns tasks) and the client side sits inside ClientBuilder::connect; a mutation of that pipeline is NOT detected",
+    "stubs": [],
+    "assumptions": [],
+    "harnesses": [
+        H(_R.replace("relay__relay", "relay__http"), "c11_version_token_exact_match", "match_from_str(s) == Some(v) iff s == v.to_str() exactly", "ASCII strings <= 16 bytes"),
+        H("iroh_relay__http", "c11_version_order_and_names", "names distinct, ALL complete, V2 newest under Ord, header value == name", "-"),
+        W("iroh_relay__http", "c11_witness"),
+    ],
+}
+_PT = "iroh_relay__ping_tracker"
+PROPS["C14"] = {
+    "functions": ["iroh_relay::ping_tracker::PingTracker::{new,default,new_ping,new_ping_with_timeout,pong_received,ping_timeout,timeout}"],
+    "bounds": "every history of 3 operations (new ping / pong with arbitrary 8 bytes / clock advance 0..25.5 s in 100 ms ticks), arbitrary rng output; clamp formula for max 1..=120 s and rtt <= 200 s",
+    "out": "timeout() itself (contains tokio sleep_until: any harness that statically reaches it makes kani-compiler ICE): that it sleeps until exactly `deadline` and pends forever when idle is by reading; PingTracker::new(max < 500 ms) (clamp panics; no caller does that)",
+    "stubs": [RNG, CLOCK, TRACING],
+    "assumptions": [],
+    "harnesses": [
+        H(_PT, "c14_latest_ping_only", "tracker armed iff latest ping unanswered; deadline = its send time + timeout in force; rtt only from a matching pong (= now - send time); stale/forged pongs change nothing", "every history of 3 operations, clock in 100 ms ticks", timeout=600, stub_env=True, stubs=["rand::random", "Instant::now"]),
+        H(_PT, "c14_timeout_is_clamped_triple_rtt", "ping_timeout() == clamp(3*rtt, 500 ms, max), max when unmeasured", "max 1..=120 s, rtt 0..=200 s in ms", timeout=600),
+        H(_PT, "c14_stale_pong_ignored", "a pong for an older ping or with forged data changes nothing", "2 pings, 3 pongs", stub_env=True, stubs=["rand::random", "Instant::now"]),
+        W(_PT, "c14_witness"),
     ],
 }
